@@ -109,28 +109,35 @@ Qed.
 End G.
 
 (* Modes.HasMode / Get / String read the told mode list *)
+Lemma rune_eq_byte n x : (x <? 128) = true -> streqb (byte_as_rune n) [x] = (n =? x).
+Proof.
+  intros Hx. unfold byte_as_rune. destruct (n <? 128) eqn:E; simpl.
+  - rewrite andb_true_r. reflexivity.
+  - rewrite andb_false_r. symmetry. lia.
+Qed.
+
 Lemma g_has_mode_spec s k c x : (x <? 128) = true -> g_has_mode c [x] = mode_has x (rc_modes (abs_chan s k c)).
 Proof.
-  intros Hx. unfold g_has_mode, has_mode, mode_has, abs_chan. simpl. rewrite Hx. simpl.
-  induction (cm_modes (c_modes c)) as [|m l IH]; simpl; [reflexivity|]. rewrite IH. reflexivity.
+  intros Hx. unfold g_has_mode, has_mode_str, mode_has, abs_chan. simpl.
+  induction (cm_modes (c_modes c)) as [|m l IH]; simpl; [reflexivity|]. rewrite IH, (rune_eq_byte _ _ Hx). reflexivity.
 Qed.
 
 Lemma g_mode_get_spec s k c x : (x <? 128) = true -> g_mode_get c [x] = mode_arg x (rc_modes (abs_chan s k c)).
 Proof.
-  intros Hx. unfold g_mode_get, abs_chan. simpl. rewrite Hx.
-  induction (cm_modes (c_modes c)) as [|m l IH]; simpl; [reflexivity|]. rewrite IH. destruct (m_args m); reflexivity.
+  intros Hx. unfold g_mode_get, abs_chan. simpl.
+  induction (cm_modes (c_modes c)) as [|m l IH]; simpl; [reflexivity|]. rewrite IH, (rune_eq_byte _ _ Hx). destruct (m_args m); reflexivity.
 Qed.
 
 Lemma modes_string_eq (l : list cmode) :
   match l with
   | [] => []
-  | _ => 43 :: List.map m_name l ++ flat_map (fun m => match m_args m with [] => [] | a => 32 :: a end) l
+  | _ => 43 :: flat_map (fun m => byte_as_rune (m_name m)) l ++ flat_map (fun m => match m_args m with [] => [] | a => 32 :: a end) l
   end = v_modes_string (List.map (fun m => (m_name m, m_args m)) l).
 Proof.
   unfold v_modes_string. destruct l as [|m0 l0]; [reflexivity|]. set (l := m0 :: l0). cbn [List.map l].
   change ((m_name m0, m_args m0) :: List.map (fun m => (m_name m, m_args m)) l0) with (List.map (fun m => (m_name m, m_args m)) l).
   f_equal. f_equal.
-  - rewrite map_map. reflexivity.
+  - clear. induction l as [|m l IH]; [reflexivity|]. cbn [flat_map List.map fst]. rewrite IH. reflexivity.
   - clear. induction l as [|m l IH]; [reflexivity|]. cbn [flat_map List.map snd]. rewrite IH. reflexivity.
 Qed.
 
